@@ -247,9 +247,7 @@ fn elaborate_diff_switches(stmts: Vec<Sp<LowerStmt>>, diff_flag_names: &context:
                 // find the max number of switch cases and explicit values
                 let mut switch_props = ds_util::DiffSwitchMeta::new();
                 for arg in args {
-                    if let LowerArg::DiffSwitch(cases) = &arg.value {
-                        switch_props.update(cases);
-                    }
+                    update_switch_props_from_lower_arg(&mut switch_props, &arg.value);
                 }
 
                 if switch_props.num_difficulties < 2 {
@@ -286,6 +284,16 @@ fn elaborate_diff_switches(stmts: Vec<Sp<LowerStmt>>, diff_flag_names: &context:
         }
     }
     out
+}
+
+/// Accounts for a difficulty switch and any switches nested inside its cases.
+fn update_switch_props_from_lower_arg(switch_props: &mut ds_util::DiffSwitchMeta, arg: &LowerArg) {
+    if let LowerArg::DiffSwitch(cases) = arg {
+        switch_props.update(cases);
+        for case in cases.iter().flatten() {
+            update_switch_props_from_lower_arg(switch_props, &case.value);
+        }
+    }
 }
 
 fn select_diff_for_lower_args(args: &[Sp<LowerArg>], difficulty: u32) -> Vec<Sp<LowerArg>> {
